@@ -6,13 +6,20 @@
 //
 // header: {"limit":n, "mode":"poll"|"coro"|"all", "pmode":"poll"|"coro"|"all", "item":"int"|"tracked"|"all"}
 //   ("all": the scenario is executed once per variant of that field)
-//   mode  = coro : every pop future is awaited by a consumer coroutine
-//   pmode = coro : every push future is awaited by a producer coroutine
-//   item         : T = int, or an instrumented item type whose live instances are counted
+//   mode  = coro    : every pop future is awaited by a consumer coroutine
+//   pmode = coro    : every push future is awaited by a producer coroutine
+//   item  = int     : cocls::limited_queue<int> (default containers, std::mutex)
+//   item  = tracked : limited_queue<Tracked, CheckedQueue x3, CheckedLock>: an item type whose live
+//                     instances are counted, and -- through the library's Queue/Lock template
+//                     parameters -- containers that report every access made without the lock and a lock
+//                     that reports misuse; coroutines report being resumed while the lock is held.
+//                     This binds the specification's grain (all state changes inside the critical
+//                     section, resolutions of other parties' promises outside) to the code.
 // projection:
 //   {"blocked":[{"push":id,"v":item}...], "destroyed", "fut":[{"st","v"}...], "items":[...], "limit",
 //    "live":[live instances of value 1..npush], "npop", "npush", "pfut":["ready"|"pending"|"done"|"exc"|"canceled"...],
 //    "ret":{"t1":"none"|"true"|"false"}, "size", "waiters":[pop ids]}
+//   plus, only when wrong: "lock_violation", "empty_mismatch", "limit_mismatch", "stray_item"
 #include <cocls/queue.h>
 #include <cocls/async.h>
 #include <cocls/future.h>
@@ -20,12 +27,15 @@
 
 #include <deque>
 #include <optional>
+#include <queue>
 
 using namespace rp;
 
 struct TestExc : std::exception {};
 
+// ---------------------------------------------------------------------------------------------
 // item type with instance accounting: live[v] = number of live, not moved-from instances carrying v
+// ---------------------------------------------------------------------------------------------
 struct Tracked {
     static inline std::map<int, int> live;
     int v = 0;
@@ -46,11 +56,51 @@ struct Tracked {
 inline int val_of(int x) { return x; }
 inline int val_of(const Tracked &x) { return x.v; }
 
+// ---------------------------------------------------------------------------------------------
+// lock discipline (single-threaded: one global flag)
+// ---------------------------------------------------------------------------------------------
+namespace lockcheck {
+inline int held = 0;
+inline std::string violation;
+inline void fail(const std::string &what) { if (violation.empty()) violation = what; }
+inline void access(const char *what) { if (!held) fail(std::string("queue state accessed without the lock: ") + what); }
+
+struct Lock {
+    void lock() { if (held) fail("lock taken while already held"); held++; }
+    void unlock() { if (!held) fail("unlock of a lock that is not held"); else held--; }
+    bool try_lock() { if (held) return false; held++; return true; }
+};
+
+// the container interface limited_queue uses, every call checked; `_q` is for the probe only
+template <typename X>
+class Queue {
+public:
+    template <typename... Args>
+    void emplace(Args &&...args) { access("emplace"); _q.emplace(std::forward<Args>(args)...); }
+    void push(X &&x) { access("push"); _q.push(std::move(x)); }
+    void push(const X &x) { access("push"); _q.push(x); }
+    void pop() { access("pop"); _q.pop(); }
+    X &front() { access("front"); return _q.front(); }
+    X &back() { access("back"); return _q.back(); }
+    bool empty() const { access("empty"); return _q.empty(); }
+    std::size_t size() const { access("size"); return _q.size(); }
+    std::queue<X> _q;
+};
+}  // namespace lockcheck
+
+template <typename X> std::queue<X> &raw(cocls::primitives::std_queue<X> &q) { return q; }
+template <typename X> std::queue<X> &raw(lockcheck::Queue<X> &q) { return q._q; }
+
+template <typename T> struct QueueOf { using type = cocls::limited_queue<T>; };
+template <> struct QueueOf<Tracked> {
+    using type = cocls::limited_queue<Tracked, lockcheck::Queue, lockcheck::Queue, lockcheck::Queue, lockcheck::Lock>;
+};
+
 // limited_queue derives from queue<T> *protectedly*: unblock_pop and all state are reachable only
 // from a derived class
 template <typename T>
-struct Probe : cocls::limited_queue<T> {
-    using Base = cocls::limited_queue<T>;
+struct Probe : QueueOf<T>::type {
+    using Base = typename QueueOf<T>::type;
     using Base::Base;
     using Base::_queue;
     using Base::_awaiters;
@@ -77,6 +127,7 @@ cocls::async<void> consumer(cocls::future<T> &f, Rec &r) {
     } catch (const TestExc &) {
         r.st = "exc";
     }
+    if (lockcheck::held) lockcheck::fail("consumer coroutine resumed while the queue lock is held");
     r.resumes++;
     r.done = true;
 }
@@ -90,6 +141,7 @@ inline cocls::async<void> producer(cocls::future<void> &f, Rec &r) {
     } catch (const TestExc &) {
         r.st = "exc";
     }
+    if (lockcheck::held) lockcheck::fail("producer coroutine resumed while the queue lock is held");
     r.resumes++;
     r.done = true;
 }
@@ -135,6 +187,7 @@ struct World {
         return m;
     }
 
+    // "ready": resolved when push() returned; "done": was pending, completed later
     J pfut_state(std::size_t i) {
         cocls::future<void> &f = *pfuts[i];
         std::string st = "pending";
@@ -167,31 +220,36 @@ struct World {
         J waiters = J::list();
         J blocked = J::list();
         std::size_t size = 0;
+        std::vector<int> cnt(npush + 1, 0);   // places holding each value (int items carry no identity)
+        auto count = [&](int v) { if (v >= 1 && v <= npush) cnt[v]++; };
         if (q) {
             {
-                auto copy = q->_queue;   // std::queue<T> copy
-                while (!copy.empty()) { items.push(val_of(copy.front())); copy.pop(); }
+                auto copy = raw(q->_queue);   // std::queue<T> copy
+                while (!copy.empty()) { items.push(val_of(copy.front())); count(val_of(copy.front())); copy.pop(); }
             }
             // the parked pop promises: identify each by the future it points to
-            std::size_t n = q->_awaiters.size();
+            auto &aw = raw(q->_awaiters);
+            std::size_t n = aw.size();
             for (std::size_t i = 0; i < n; i++) {
-                cocls::promise<T> p = std::move(q->_awaiters.front());
-                q->_awaiters.pop();
+                cocls::promise<T> p = std::move(aw.front());
+                aw.pop();
                 auto it = id_of.find(p.get_id());
                 waiters.push(it == id_of.end() ? -1 : it->second);
-                q->_awaiters.push(std::move(p));
+                aw.push(std::move(p));
             }
             // the blocked pushes: item + the push future its promise<void> points to
-            n = q->_blocked.size();
+            auto &bl = raw(q->_blocked);
+            n = bl.size();
             for (std::size_t i = 0; i < n; i++) {
-                auto e = std::move(q->_blocked.front());
-                q->_blocked.pop();
+                auto e = std::move(bl.front());
+                bl.pop();
                 J b = J::map();
                 b.set("v", val_of(e.first));
+                count(val_of(e.first));
                 auto it = pid_of.find(e.second.get_id());
                 b.set("push", it == pid_of.end() ? -1 : it->second);
                 blocked.push(b);
-                q->_blocked.push(std::move(e));
+                bl.push(std::move(e));
             }
             size = q->size();                       // the public observers
             if (q->empty() != (size == 0)) m.set("empty_mismatch", true);
@@ -202,11 +260,10 @@ struct World {
         m.set("blocked", blocked);
         m.set("size", size);
         J fl = J::list();
-        std::vector<int> delivered(npush + 1, 0);
         for (std::size_t i = 0; i < futs.size(); i++) {
             fl.push(fut_state(i));
             if (futs[i]->ready()) {
-                try { int v = val_of(futs[i]->value()); if (v >= 1 && v <= npush) delivered[v]++; } catch (...) {}
+                try { count(val_of(futs[i]->value())); } catch (...) {}
             }
         }
         m.set("fut", fl);
@@ -219,20 +276,6 @@ struct World {
             for (int v = 1; v <= npush; v++) live.push(Tracked::live[v]);
             for (auto &kv : Tracked::live) if ((kv.first < 1 || kv.first > npush) && kv.second != 0) m.set("stray_item", kv.first);
         } else {
-            // plain int carries no identity: the number of places holding the value
-            std::vector<int> cnt = delivered;
-            if (q) {
-                auto copy = q->_queue;
-                while (!copy.empty()) { int v = copy.front(); if (v >= 1 && v <= npush) cnt[v]++; copy.pop(); }
-                std::size_t n = q->_blocked.size();
-                for (std::size_t i = 0; i < n; i++) {
-                    auto e = std::move(q->_blocked.front());
-                    q->_blocked.pop();
-                    int v = val_of(e.first);
-                    if (v >= 1 && v <= npush) cnt[v]++;
-                    q->_blocked.push(std::move(e));
-                }
-            }
             for (int v = 1; v <= npush; v++) live.push(cnt[v]);
         }
         m.set("live", live);
@@ -241,6 +284,7 @@ struct World {
         J r = J::map();
         r.set("t1", ret);
         m.set("ret", r);
+        if (!lockcheck::violation.empty()) m.set("lock_violation", lockcheck::violation);
         return m;
     }
 
@@ -249,6 +293,8 @@ struct World {
         pcoro = var.pcoro;
         limit = (int) sc.hdr.at("limit").as_int(1);
         if constexpr (std::is_same_v<T, Tracked>) Tracked::live.clear();
+        lockcheck::held = 0;
+        lockcheck::violation.clear();
         q.reset(new Probe<T>((std::size_t) limit));
         for (std::size_t k = 0; k < sc.steps.size(); k++) {
             const Step &st = sc.steps[k];
@@ -278,6 +324,7 @@ struct World {
                 rep.error(k, "unknown action");
                 break;
             }
+            if (lockcheck::held) lockcheck::fail("lock still held after the call returned");
             if (!rep.check(k, project())) break;
         }
         // tear down: the queue must go before the futures (parked promises point to them)
@@ -295,7 +342,7 @@ struct World {
                 if (pcoro && !precs[i].done) { rep.diverge(last, "producer coroutine never resumed"); break; }
             }
         }
-        // a pending future must not be destroyed (UB per future.h): leak those of a diverged scenario
+        // a pending future must not be destroyed (future.h:175): leak those of a diverged scenario
         for (auto &f : futs) if (f->pending()) f.release();
         for (auto &f : pfuts) if (f->pending()) f.release();
         futs.clear();
